@@ -316,6 +316,34 @@ pub fn cases(_tier: &str, _seed: u64) -> Vec<Case> {
             }
         }
     }
+    // parse side with entries: the header of a message that carries questions and records - among them the shortest there
+    // are (root-name questions, 5 octets each; root-owner records without RDATA, 11 octets) - reads like the header alone
+    {
+        for w in (0..=65535u32).step_by(97).chain([0x0100, 0x8180, 0x0120, 0x8400]) {
+            let w = w as u16;
+            let spec = rfc(w);
+            if spec.z != 0 { continue; }
+            for (qd, an, ar) in [(1u16, 0u16, 0u16), (2, 0, 0), (3, 0, 0), (0, 1, 0), (1, 1, 1), (0, 0, 2), (4, 2, 0)] {
+                let id = w ^ 0x1357;
+                let mut b = vec![(id >> 8) as u8, id as u8, (w >> 8) as u8, w as u8, 0, qd as u8, 0, an as u8, 0, 0, 0, ar as u8];
+                for _ in 0..qd { b.extend_from_slice(&[0, 0, 2, 0, 1]); }
+                for _ in 0..(an + ar) { b.extend_from_slice(&[0, 0, 1, 0, 1, 0, 0, 0, 5, 0, 0]); }
+                let out = match Packet::parse(&b) { Ok(p) => format!("ok {}", text::packet(&p)), Err(_) => "err".to_string() };
+                let mut c = Case::new(format!("parse {}", text::hex(&b)), out).tag("parse-with-entries");
+                match Packet::parse(&b) {
+                    Err(_) => { c = c.fail("header-rejected", format!("word {:#06x} with {} root question(s) and {} empty record(s): a legal message is rejected", w, qd, an + ar)); }
+                    Ok(p) => {
+                        let exp = [spec.qr, spec.aa, spec.tc, spec.rd, spec.ra, spec.ad, spec.cd];
+                        let got: Vec<u16> = flags.iter().map(|f| p.has_flags(*f) as u16).collect();
+                        if p.id() != id || got[..] != exp[..] || p.opcode() != opcode_of(spec.opcode) || p.rcode() != rcode_of(spec.rcode) || p.questions.len() != qd as usize || p.answers.len() != an as usize || p.additional_records.len() != ar as usize {
+                            c = c.fail("header-layout", format!("word {:#06x} with entries: id / flags / counts read differently from the header alone", w));
+                        }
+                    }
+                }
+                v.push(c);
+            }
+        }
+    }
     // build side with entries: id (also after set_id), flags, opcode, rcode and the four counts land at their RFC 1035
     // positions whatever the sections hold, through both writers; judged on the 12 header bytes alone
     {
